@@ -18,7 +18,7 @@ FD = _d.FieldDescriptor
 PROFILE = grammar.profile(
     p_sstream=0.5, p_cstream=0.4, p_bidi=0.4, p_lro=0.0, p_list=0.2, p_keyword_rpc=0.3, p_stream_of_empty=0.2, p_foreign_request=0.3,
     p_service_config=0.7, p_reserved_field=0.2, transports=["grpc", "grpc", "grpc+rest"], p_yaml=0.1, p_local_empty=0.15, p_two_services=0.4, p_same_method_two_services=0.6, p_mixed_foreign_io=0.3,
-    p_custom=0.7)
+    p_custom=0.7, p_streamed_list=0.2)
 
 BUDGET = {
     "quick": {"worlds": 150, "runs": 100, "wall_cap": 300, "world_wall": 90},
